@@ -34,7 +34,7 @@ SHORT = {'method_context_created': 'created', 'method_call': 'call', 'method_ret
 INJECTIONS = ['success', 'malformed', 'bad_envelope', 'unknown_method', 'invalid_argument',
               'call_listener_fault@app', 'call_listener_exc@app', 'call_listener_fault@service',
               'call_listener_exc@method', 'return_listener_fault@app', 'return_listener_exc@service',
-              'function_fault', 'function_exc', 'unserialisable_return']
+              'function_fault', 'function_exc', 'unserialisable_return', 'genfunction_fault', 'genfunction_exc']
 LAYOUTS = ('app_only', 'all_levels', 'duplicates', 'diamond', 'late')
 INHERITED = ('service_base', 'service_grand', 'service_base2')
 
@@ -126,8 +126,21 @@ def build(kind, layout, injection, trace):
             return object()
         return n
 
+    def body_gen(ctx, n):
+        # a generator function: its body runs when the transport asks for the first item
+        trace.add('USER', 'enter', None)
+        trace.add('USER', 'raise', None)
+        if inj == 'genfunction_fault':
+            raise Fault('Client.FromFunction', 'f fault')
+        raise Boom('f exception')
+        yield n
+
     class Svc(*bases):
-        f = rpc(Integer, _returns=Integer, _evmgr=method_mgr)(body)
+        if inj.startswith('genfunction'):
+            from spyne import Iterable
+            f = rpc(Integer, _returns=Iterable(Integer), _evmgr=method_mgr)(body_gen)
+        else:
+            f = rpc(Integer, _returns=Integer, _evmgr=method_mgr)(body)
 
         @rpc(Integer, _returns=Integer)
         def g(ctx, n):
@@ -255,6 +268,8 @@ def judge(kind, driver, layout, injection, trace, fault_sent, escaped):
             if 'return_object' in raised_on and (not same_mgr or level.endswith('_late')):
                 pass    # another manager's listener aborted the event (inter-manager order is not judged), or this listener was
                 #         registered after the raising one on the same manager and cannot see the aborted event
+            elif inj.startswith('genfunction'):
+                pass    # a generator object was returned before the body ran: what "returned normally" means here is not stated
             elif bool(ro) != bool(user_return):
                 V.append(('return_object_iff_returned', '%s listener %d: method_return_object fired=%s, function returned normally=%s' % (level, lid, bool(ro), bool(user_return))))
             if inj != 'unserialisable_return' and bool(eo) != bool(fault_sent):
@@ -309,6 +324,9 @@ def run_case(R, kind, driver, layout, injection):
         R.skip('injection not expressible for protocol')
         return
     app = build(kind, layout, injection, trace)
+    if injection.startswith('genfunction') and driver != 'wsgi':
+        R.skip('generator functions are consumed by the transport; judged through WSGI only')
+        return
     if injection == 'unserialisable_return' and kind not in ('soap11', 'soap12', 'xml'):
         R.skip('unserialisable return: only the eagerly serialising XML protocols (statement)')
         return
